@@ -47,6 +47,17 @@ def _target_compares(expr):
     return out
 
 
+def _is_container_name(ctx, f, name):
+    """local ``name`` is bound to a list/tuple/set display or constructor (so iterating
+    it yields elements, not characters)"""
+    for v in ctx.r.local_assignments(f).get(name, []):
+        if isinstance(v, (ast.List, ast.Tuple, ast.Set, ast.ListComp, ast.SetComp)):
+            return True
+        if isinstance(v, ast.Call) and dotted(v.func) in ("list", "tuple", "set", "frozenset"):
+            return True
+    return False
+
+
 def rule_forbid(ctx):
     r = RuleResult("C07-FORBID", "forbidden indices are never selected", 2)
     sf = ctx.p.cls(C.SLICER, "SliceFinder")
@@ -85,6 +96,54 @@ def rule_forbid(ctx):
             r.violation(key, C.loc(tr, e.ast), "an index is added to the sliced set without the "
                         "forbidden test dominating it: with only forbidden indices left the "
                         "-inf penalty ties and a forbidden (output) index is chosen")
+    # the chosen index enters the set as *one element*: set algebra with the bare label
+    # (``ix_sl.union(ix)``, ``frozenset(ix)``) iterates the label's characters
+    for e in ext:
+        key = ctx.key(tr, "C07-FORBID", "element")
+        v = e.ast.value
+        added = None
+        if isinstance(v, ast.BinOp):
+            added = v.right if "ix_sl" in C.unparse(v.left) or isinstance(v.left, ast.Name) else v.left
+        elif isinstance(v, ast.Call) and v.args:
+            added = v.args[0]
+        inner = added
+        if isinstance(inner, ast.Call) and dotted(inner.func) in ("frozenset", "set") and inner.args:
+            inner = inner.args[0]
+        bare = isinstance(inner, ast.Name) and not _is_container_name(ctx, tr, inner.id)
+        if added is not None and bare:
+            r.violation(key, C.loc(tr, e.ast), f"`{C.unparse(v)}` builds the set from the label `{inner.id}` "
+                        "itself, i.e. from its characters: for multi-character index names the recorded "
+                        "set is not the set of indices removed from the cost model")
+        else:
+            r.ok(key, C.loc(tr, e.ast), "the chosen index is added as a single element")
+    # option handling: an equality test against a truthy constant placed after a bare
+    # truthiness test of the same option can never be reached
+    init0 = sf.methods["__init__"]
+    for n in walk_local(init0.node):
+        if not isinstance(n, ast.If):
+            continue
+        chain, cur = [], n
+        while True:
+            chain.append(cur.test)
+            if len(cur.orelse) == 1 and isinstance(cur.orelse[0], ast.If):
+                cur = cur.orelse[0]
+            else:
+                break
+        if init0.module.parents.get(n) is not None and isinstance(init0.module.parents.get(n), ast.If) \
+                and n in init0.module.parents.get(n).orelse:
+            continue  # inner link of a chain already handled
+        for i, t in enumerate(chain):
+            if isinstance(t, ast.Compare) and len(t.ops) == 1 and isinstance(t.ops[0], ast.Eq) and \
+                    isinstance(t.left, ast.Name) and isinstance(t.comparators[0], ast.Constant) \
+                    and bool(t.comparators[0].value):
+                key = ctx.key(init0, "C07-FORBID", f"option:{t.left.id}={t.comparators[0].value!r}")
+                shadow = [u for u in chain[:i] if isinstance(u, ast.Name) and u.id == t.left.id]
+                if shadow:
+                    r.violation(key, C.loc(init0, t), f"`{C.unparse(t)}` is tested after the bare truthiness "
+                                f"test `{t.left.id}`; {t.comparators[0].value!r} is truthy, so this branch is "
+                                "unreachable and the option silently behaves like True (no index forbidden)")
+                else:
+                    r.ok(key, C.loc(init0, t), "option value tested before any truthiness test of the option")
     # forbidden assigned only in __init__, never mutated
     key = ctx.key(sf.methods["__init__"], "C07-FORBID", "immutable")
     bad = None
